@@ -35,6 +35,8 @@ pub struct Mon {
     pub known: Rc<crate::known::Known>,
     pub analysis: Rc<crate::analysis::Analysis>,
     pub produced: BTreeMap<String, BTreeSet<String>>, // C14 ground truth: content ids each peer produced itself
+    pub rmodel: Option<Rc<crate::refmodel::RResult>>,
+    pub scratch: BTreeMap<String, Vec<String>>, // per-history oracle state (C11, C13, C18)
 }
 
 pub fn class(code: i64) -> char {
@@ -231,6 +233,8 @@ impl Mon {
             known,
             analysis: Rc::new(crate::analysis::analyse(ast)),
             produced: BTreeMap::new(),
+            rmodel: None,
+            scratch: BTreeMap::new(),
         }
     }
     pub fn on(&self, p: &str) -> bool {
@@ -353,6 +357,15 @@ impl Mon {
         if self.on("C01") {
             crate::monitors2::c01_entry_points(self, w, idx);
             self.c01(w, idx);
+        }
+        if honest && self.on("C11") {
+            crate::monitors3::c11(self, w, idx);
+        }
+        if honest && self.on("C13") {
+            crate::monitors3::c13(self, w, idx);
+        }
+        if honest && (self.on("C16") || self.on("C17")) {
+            crate::monitors3::c16_c17(self, w, idx);
         }
         if honest && self.on("C04") {
             self.c04(w, idx);
@@ -919,6 +932,12 @@ impl Mon {
         }
         if self.on("C08") {
             crate::monitors2::c08(self, w, rng);
+        }
+        if self.on("C18") {
+            crate::monitors3::c18(self, w);
+        }
+        if self.on("C13") {
+            crate::monitors3::c13_end(self, w);
         }
     }
 
